@@ -1,6 +1,6 @@
 (** C26: printers used by the correspondence check only. *)
 From Coq Require Import List NArith Bool String.
-From TwLib Require Import Show PyPath.
+From TwLib Require Import Show PyPath PyPathDir.
 From C26 Require Import Model.
 Import ListNotations.
 Local Open Scope string_scope.
@@ -14,7 +14,9 @@ Inductive case :=
 | CChild (cwd parent name : bytes)          (* FilePath(parent).child(name) *)
 | CPre (cwd parent path : bytes)            (* FilePath(parent).preauthChild(path) *)
 | CDesc (cwd parent : bytes) (segs : list bytes)
-| CStatic (cwd root : bytes) (dirs files index : list bytes) (url : bytes).
+| CDir (s : bytes)                          (* os.path.dirname / basename / splitext(s)[1] *)
+| CStatic (cwd root : bytes) (dirs files : list bytes) (listing : list (bytes * list bytes))
+          (index ignored procexts : list bytes) (children : list (bytes * nat)) (url : bytes).
 
 Definition show_res (r : option bytes) : string :=
   match r with Some p => "P:" ++ show_hex p | None => "X" end.
@@ -29,6 +31,8 @@ Definition show_outcome (o : outcome) : string :=
   | Redirect => "R"
   | NotFound => "N"
   | Error500 => "E"
+  | Processed p rest => "P:" ++ show_hex p ++ ":" ++ String.concat "/" (map show_hex rest)
+  | StaticChild i rest => "C:" ++ show_nat i ++ ":" ++ String.concat "/" (map show_hex rest)
   end.
 
 Definition mem (l : list bytes) (p : bytes) : bool := existsb (beq p) l.
@@ -43,9 +47,12 @@ Definition run_show (c : case) : string :=
   | CChild cwd parent name => show_res (child cwd (mk cwd parent) name)
   | CPre cwd parent path => show_res (preauthChild cwd (mk cwd parent) path)
   | CDesc cwd parent segs => show_res (descendant cwd (mk cwd parent) segs)
-  | CStatic cwd root dirs files index url =>
+  | CDir s => show_hex (dirname s) ++ "|" ++ show_hex (basename s) ++ "|" ++ show_hex (ext_of s)
+  | CStatic cwd root dirs files listing index ignored procexts children url =>
       let isdir := mem dirs in
       let ex := fun p => mem dirs p || mem files p in
-      let '(acc, o) := serve cwd isdir ex index (mk cwd root) url in
+      let ls := fun d => match assoc d listing with Some l => l | None => [] end in
+      let processed := fun g => mem procexts (ext_of g) in
+      let '(acc, o) := serve cwd isdir ex ls index ignored processed children (mk cwd root) url in
       String.concat "," (map show_access acc) ++ "|" ++ show_outcome o
   end.
